@@ -1,8 +1,741 @@
-//! Family "ranksel" (stub: not implemented yet).
-use crate::Ctx;
-use serde_json::Value;
+//! Family "ranksel": every rank / select structure of sux::rank_sel, in every
+//! nesting of a compiled menu, driven by an operation script (properties C01,
+//! C02 and the ranksel parts of C11, C12, C15).
+//!
+//! Episode = `vec` (the bit vector: length, runs of ones, tail treatment
+//! applied to the real `BitVec` through push/pop/resize/from_raw_parts), then
+//! any number of `build` (a stack of layers over a clone of the vector; the
+//! structure built last is the structure under test), queries (batched: one
+//! event carries a list of arguments and the list of results), `mem_size`,
+//! `reload` (serialize with ε-serde, load back, query the loaded instance).
+//!
+//! The executor never judges: which traits a stack implements is decided by
+//! the Rust compiler (autoref probes below: an operation the type does not
+//! implement is logged as `out:"na"`), every result is logged verbatim.
+//!
+//! Numbers: arguments below zero stand for huge values (-1 = usize::MAX,
+//! -2 = 2^63, -3 = 2^32); `None` results of batched selects are logged as -1.
 
-pub fn run(_ep: &Value, _ctx: &mut Ctx) {
-    eprintln!("family ranksel not implemented");
-    std::process::exit(2);
+use crate::util::*;
+use crate::{guard, Ctx};
+use epserde::prelude::*;
+use mem_dbg::{MemSize, SizeFlags};
+use serde_json::{json, Value};
+use std::mem::ManuallyDrop;
+use std::ops::Index;
+use sux::prelude::*;
+
+// ---------------------------------------------------------------------------
+// compile-time capability probes (autoref specialisation): `(&P(x)).p_m(..)`
+// is Some(result) when the concrete type of `x` implements the trait of `m`,
+// None otherwise.
+// ---------------------------------------------------------------------------
+struct P<'a, T>(&'a T);
+
+macro_rules! probe {
+    ($yes:ident, $no:ident, $m:ident ( $($a:ident : $t:ty),* ) -> $r:ty, [$($bound:tt)+], |$s:ident| $body:expr) => {
+        trait $yes { fn $m(&self $(, $a: $t)*) -> Option<$r>; }
+        impl<'a, T: $($bound)+> $yes for P<'a, T> {
+            #[inline]
+            fn $m(&self $(, $a: $t)*) -> Option<$r> { let $s = self.0; Some($body) }
+        }
+        trait $no {
+            #[inline]
+            fn $m(&self $(, $a: $t)*) -> Option<$r> { $(let _ = $a;)* None }
+        }
+        impl<'a, T> $no for &P<'a, T> {}
+    };
+}
+
+probe!(YLen, NLen, p_len() -> usize, [BitLength], |s| BitLength::len(s));
+probe!(YIdx, NIdx, p_index(i: usize) -> bool, [Index<usize, Output = bool>], |s| s[i]);
+probe!(YCo, NCo, p_count_ones() -> usize, [BitCount], |s| s.count_ones());
+probe!(YCz, NCz, p_count_zeros() -> usize, [BitCount], |s| s.count_zeros());
+probe!(YNo, NNo, p_num_ones() -> usize, [NumBits], |s| s.num_ones());
+probe!(YNz, NNz, p_num_zeros() -> usize, [NumBits], |s| s.num_zeros());
+probe!(YRk, NRk, p_rank(p: usize) -> usize, [Rank], |s| s.rank(p));
+probe!(YRu, NRu, p_rank_u(p: usize) -> usize, [RankUnchecked], |s| unsafe { s.rank_unchecked(p) });
+probe!(YRz, NRz, p_rank_zero(p: usize) -> usize, [RankZero], |s| s.rank_zero(p));
+probe!(YRzu, NRzu, p_rank_zero_u(p: usize) -> usize, [RankZero], |s| unsafe { s.rank_zero_unchecked(p) });
+probe!(YRh, NRh, p_rank_hinted(p: usize, hp: usize, hr: usize) -> usize, [RankHinted<64>],
+       |s| unsafe { RankHinted::<64>::rank_hinted(s, p, hp, hr) });
+probe!(YSe, NSe, p_select(r: usize) -> Option<usize>, [Select], |s| s.select(r));
+probe!(YSu, NSu, p_select_u(r: usize) -> usize, [SelectUnchecked], |s| unsafe { s.select_unchecked(r) });
+probe!(YSz, NSz, p_select_zero(r: usize) -> Option<usize>, [SelectZero], |s| s.select_zero(r));
+probe!(YSzu, NSzu, p_select_zero_u(r: usize) -> usize, [SelectZeroUnchecked], |s| unsafe { s.select_zero_unchecked(r) });
+probe!(YSh, NSh, p_select_hinted(r: usize, hp: usize, hr: usize) -> usize, [SelectHinted],
+       |s| unsafe { s.select_hinted(r, hp, hr) });
+probe!(YSzh, NSzh, p_select_zero_hinted(r: usize, hp: usize, hr: usize) -> usize, [SelectZeroHinted],
+       |s| unsafe { s.select_zero_hinted(r, hp, hr) });
+probe!(YMs, NMs, p_mem_size() -> usize, [MemSize], |s| s.mem_size(SizeFlags::default()));
+
+/// The structure under test, whatever its type.
+trait Dyn {
+    fn len(&self) -> Option<usize>;
+    fn index(&self, i: usize) -> Option<bool>;
+    fn count_ones(&self) -> Option<usize>;
+    fn count_zeros(&self) -> Option<usize>;
+    fn num_ones(&self) -> Option<usize>;
+    fn num_zeros(&self) -> Option<usize>;
+    fn rank(&self, p: usize) -> Option<usize>;
+    fn rank_u(&self, p: usize) -> Option<usize>;
+    fn rank_zero(&self, p: usize) -> Option<usize>;
+    fn rank_zero_u(&self, p: usize) -> Option<usize>;
+    fn rank_hinted(&self, p: usize, hp: usize, hr: usize) -> Option<usize>;
+    fn select(&self, r: usize) -> Option<Option<usize>>;
+    fn select_u(&self, r: usize) -> Option<usize>;
+    fn select_zero(&self, r: usize) -> Option<Option<usize>>;
+    fn select_zero_u(&self, r: usize) -> Option<usize>;
+    fn select_hinted(&self, r: usize, hp: usize, hr: usize) -> Option<usize>;
+    fn select_zero_hinted(&self, r: usize, hp: usize, hr: usize) -> Option<usize>;
+    fn mem_size(&self) -> Option<usize>;
+    /// serialize + load back; Ok(None): not applicable to this instance
+    fn reload(&self, mode: &str) -> Result<Option<Box<dyn Dyn>>, String>;
+}
+
+macro_rules! dyn_queries {
+    (|$me:ident| $acc:expr) => {
+        fn len(&self) -> Option<usize> { let $me = self; (&P($acc)).p_len() }
+        fn index(&self, i: usize) -> Option<bool> { let $me = self; (&P($acc)).p_index(i) }
+        fn count_ones(&self) -> Option<usize> { let $me = self; (&P($acc)).p_count_ones() }
+        fn count_zeros(&self) -> Option<usize> { let $me = self; (&P($acc)).p_count_zeros() }
+        fn num_ones(&self) -> Option<usize> { let $me = self; (&P($acc)).p_num_ones() }
+        fn num_zeros(&self) -> Option<usize> { let $me = self; (&P($acc)).p_num_zeros() }
+        fn rank(&self, p: usize) -> Option<usize> { let $me = self; (&P($acc)).p_rank(p) }
+        fn rank_u(&self, p: usize) -> Option<usize> { let $me = self; (&P($acc)).p_rank_u(p) }
+        fn rank_zero(&self, p: usize) -> Option<usize> { let $me = self; (&P($acc)).p_rank_zero(p) }
+        fn rank_zero_u(&self, p: usize) -> Option<usize> { let $me = self; (&P($acc)).p_rank_zero_u(p) }
+        fn rank_hinted(&self, p: usize, hp: usize, hr: usize) -> Option<usize> {
+            let $me = self; (&P($acc)).p_rank_hinted(p, hp, hr)
+        }
+        fn select(&self, r: usize) -> Option<Option<usize>> { let $me = self; (&P($acc)).p_select(r) }
+        fn select_u(&self, r: usize) -> Option<usize> { let $me = self; (&P($acc)).p_select_u(r) }
+        fn select_zero(&self, r: usize) -> Option<Option<usize>> { let $me = self; (&P($acc)).p_select_zero(r) }
+        fn select_zero_u(&self, r: usize) -> Option<usize> { let $me = self; (&P($acc)).p_select_zero_u(r) }
+        fn select_hinted(&self, r: usize, hp: usize, hr: usize) -> Option<usize> {
+            let $me = self; (&P($acc)).p_select_hinted(r, hp, hr)
+        }
+        fn select_zero_hinted(&self, r: usize, hp: usize, hr: usize) -> Option<usize> {
+            let $me = self; (&P($acc)).p_select_zero_hinted(r, hp, hr)
+        }
+        fn mem_size(&self) -> Option<usize> { let $me = self; (&P($acc)).p_mem_size() }
+    };
+}
+
+/// An instance built by a constructor or loaded by `deserialize_full`.
+struct Own<T>(T);
+/// An instance ε-copy deserialized from an aligned byte buffer kept alive here.
+struct Eps<T: DeserializeInner + 'static> {
+    obj: ManuallyDrop<DeserType<'static, T>>,
+    buf: ManuallyDrop<Box<AlignedCursor>>,
+}
+impl<T: DeserializeInner + 'static> Drop for Eps<T> {
+    fn drop(&mut self) {
+        unsafe {
+            ManuallyDrop::drop(&mut self.obj);
+            ManuallyDrop::drop(&mut self.buf);
+        }
+    }
+}
+/// An instance ε-copy deserialized from a memory-mapped file.
+struct Mm<T: DeserializeInner + 'static>(MemCase<DeserType<'static, T>>);
+
+static FILE_SEQ: std::sync::atomic::AtomicUsize = std::sync::atomic::AtomicUsize::new(0);
+
+fn reload_own<T>(x: &T, mode: &str) -> Result<Option<Box<dyn Dyn>>, String>
+where
+    T: Serialize + Deserialize + 'static,
+    Own<T>: Dyn,
+    Eps<T>: Dyn,
+    Mm<T>: Dyn,
+{
+    match mode {
+        "full" => {
+            let mut buf: Vec<u8> = Vec::new();
+            x.serialize(&mut buf).map_err(|e| format!("serialize: {e}"))?;
+            let mut cur = std::io::Cursor::new(buf);
+            let y = T::deserialize_full(&mut cur).map_err(|e| format!("deserialize_full: {e}"))?;
+            Ok(Some(Box::new(Own(y))))
+        }
+        "eps" => {
+            let mut cur: Box<AlignedCursor> = Box::new(AlignedCursor::new());
+            x.serialize(&mut *cur).map_err(|e| format!("serialize: {e}"))?;
+            // the buffer lives on the heap for as long as the Eps value
+            let bytes: &'static [u8] = unsafe { std::mem::transmute::<&[u8], &'static [u8]>(cur.as_bytes()) };
+            let y = T::deserialize_eps(bytes).map_err(|e| format!("deserialize_eps: {e}"))?;
+            Ok(Some(Box::new(Eps::<T> { obj: ManuallyDrop::new(y), buf: ManuallyDrop::new(cur) })))
+        }
+        "mmap" => {
+            let dir = std::env::temp_dir();
+            let path = dir.join(format!(
+                "sux-verif-{}-{}.eps",
+                std::process::id(),
+                FILE_SEQ.fetch_add(1, std::sync::atomic::Ordering::SeqCst)
+            ));
+            x.store(&path).map_err(|e| format!("store: {e}"))?;
+            let y = T::mmap(&path, Flags::empty()).map_err(|e| format!("mmap: {e}"));
+            let _ = std::fs::remove_file(&path);
+            Ok(Some(Box::new(Mm::<T>(y?))))
+        }
+        _ => Err(format!("bad reload mode {mode}")),
+    }
+}
+
+macro_rules! stack_types {
+    ($($t:ty),* $(,)?) => { $(
+        impl Dyn for Own<$t> {
+            dyn_queries!(|me| &me.0);
+            fn reload(&self, mode: &str) -> Result<Option<Box<dyn Dyn>>, String> { reload_own::<$t>(&self.0, mode) }
+        }
+        impl Dyn for Eps<$t> {
+            dyn_queries!(|me| &*me.obj);
+            fn reload(&self, _mode: &str) -> Result<Option<Box<dyn Dyn>>, String> { Ok(None) }
+        }
+        impl Dyn for Mm<$t> {
+            dyn_queries!(|me| &*me.0);
+            fn reload(&self, _mode: &str) -> Result<Option<Box<dyn Dyn>>, String> { Ok(None) }
+        }
+    )* };
+}
+
+// ---------------------------------------------------------------------------
+// the compiled menu of stacks
+// ---------------------------------------------------------------------------
+type BV = BitVec<Vec<usize>>;
+type ANB<X> = AddNumBits<X>;
+type R9<X> = Rank9<X>;
+type RS0<X> = RankSmall<2, 9, X>;
+type RS1<X> = RankSmall<1, 9, X>;
+type RS2<X> = RankSmall<1, 10, X>;
+type RS3<X> = RankSmall<1, 11, X>;
+type RS4<X> = RankSmall<3, 13, X>;
+type S9<X> = Select9<Rank9<X>>;
+type SA<X> = SelectAdapt<X>;
+type SZA<X> = SelectZeroAdapt<X>;
+type SAC<X, const L: usize, const M: usize> = SelectAdaptConst<X, Box<[usize]>, L, M>;
+type SZAC<X, const L: usize, const M: usize> = SelectZeroAdaptConst<X, Box<[usize]>, L, M>;
+type SS0<X> = SelectSmall<2, 9, X>;
+type SS1<X> = SelectSmall<1, 9, X>;
+type SS2<X> = SelectSmall<1, 10, X>;
+type SS3<X> = SelectSmall<1, 11, X>;
+type SS4<X> = SelectSmall<3, 13, X>;
+type SZS0<X> = SelectZeroSmall<2, 9, X>;
+type SZS1<X> = SelectZeroSmall<1, 9, X>;
+type SZS2<X> = SelectZeroSmall<1, 10, X>;
+type SZS3<X> = SelectZeroSmall<1, 11, X>;
+type SZS4<X> = SelectZeroSmall<3, 13, X>;
+
+stack_types!(
+    BV, ANB<BV>,
+    R9<BV>, RS0<BV>, RS1<BV>, RS2<BV>, RS3<BV>, RS4<BV>,
+    R9<ANB<BV>>, RS2<ANB<BV>>, ANB<R9<BV>>, ANB<RS1<BV>>,
+    SA<BV>, SZA<BV>, SA<ANB<BV>>, SZA<ANB<BV>>, SZA<SA<ANB<BV>>>, SA<SZA<ANB<BV>>>,
+    SA<R9<BV>>, SZA<R9<BV>>, SZA<SA<R9<BV>>>, SA<SZA<R9<BV>>>,
+    S9<BV>, SZA<S9<BV>>, SZAC<S9<BV>, 12, 3>, S9<ANB<BV>>,
+    SA<RS0<BV>>, SZA<SA<RS1<BV>>>, SZA<RS2<BV>>, SA<RS3<BV>>, SA<SZA<RS4<BV>>>,
+    R9<SA<ANB<BV>>>, RS3<SZA<SA<ANB<BV>>>>, RS0<SZA<ANB<BV>>>, S9<SA<ANB<BV>>>,
+    SA<R9<ANB<BV>>>, SZA<RS1<ANB<BV>>>,
+    SAC<R9<ANB<BV>>, 8, 1>, SAC<R9<ANB<BV>>, 12, 3>,
+    SZAC<RS2<ANB<BV>>, 6, 2>, SZAC<RS2<ANB<BV>>, 12, 3>,
+    SAC<ANB<BV>, 12, 3>, SAC<ANB<BV>, 13, 0>, SAC<ANB<BV>, 10, 4>, SAC<ANB<BV>, 8, 1>,
+    SAC<ANB<BV>, 6, 2>, SAC<ANB<BV>, 3, 0>, SAC<ANB<BV>, 1, 1>, SAC<ANB<BV>, 0, 0>,
+    SZAC<ANB<BV>, 12, 3>, SZAC<ANB<BV>, 13, 0>, SZAC<ANB<BV>, 8, 1>,
+    SZAC<ANB<BV>, 6, 2>, SZAC<ANB<BV>, 3, 0>, SZAC<ANB<BV>, 0, 0>,
+    SZAC<SAC<R9<BV>, 12, 3>, 12, 3>, SAC<SZAC<R9<BV>, 8, 1>, 8, 1>,
+    SS0<RS0<BV>>, SS1<RS1<BV>>, SS2<RS2<BV>>, SS3<RS3<BV>>, SS4<RS4<BV>>,
+    SZS0<RS0<BV>>, SZS1<RS1<BV>>, SZS2<RS2<BV>>, SZS3<RS3<BV>>, SZS4<RS4<BV>>,
+    SZS0<SS0<RS0<BV>>>, SZS1<SS1<RS1<BV>>>, SZS2<SS2<RS2<BV>>>, SZS3<SS3<RS3<BV>>>, SZS4<SS4<RS4<BV>>>,
+    SS0<SZS0<RS0<BV>>>, SS1<SZS1<RS1<BV>>>, SS2<SZS2<RS2<BV>>>, SS3<SZS3<RS3<BV>>>, SS4<SZS4<RS4<BV>>>,
+    SS1<RS1<ANB<BV>>>, SZA<SS2<RS2<BV>>>,
+);
+
+fn own<T>(t: T) -> Box<dyn Dyn>
+where
+    Own<T>: Dyn + 'static,
+{
+    Box::new(Own(t))
+}
+
+fn pu(l: &Value, k: &str) -> usize {
+    l[k].as_u64().unwrap_or_else(|| panic!("layer parameter {k} missing in {l}")) as usize
+}
+
+fn sa<B: AsRef<[usize]> + BitCount>(b: B, l: &Value) -> SelectAdapt<B> {
+    match l["m"].as_str().unwrap_or("new") {
+        "new" => SelectAdapt::new(b, pu(l, "b")),
+        "span" => SelectAdapt::with_span(b, pu(l, "a"), pu(l, "b")),
+        "inv" => SelectAdapt::with_inv(b, pu(l, "a"), pu(l, "b")),
+        m => panic!("sa: bad mode {m}"),
+    }
+}
+
+fn sza<B: AsRef<[usize]> + BitCount>(b: B, l: &Value) -> SelectZeroAdapt<B> {
+    match l["m"].as_str().unwrap_or("new") {
+        "new" => SelectZeroAdapt::new(b, pu(l, "b")),
+        "span" => SelectZeroAdapt::with_span(b, pu(l, "a"), pu(l, "b")),
+        "inv" => SelectZeroAdapt::with_inv(b, pu(l, "a"), pu(l, "b")),
+        m => panic!("sza: bad mode {m}"),
+    }
+}
+
+macro_rules! small_ctors {
+    ($ss:ident, $szs:ident, $n:literal, $w:literal) => {
+        fn $ss<C: SmallCounters<$n, $w> + AsRef<[usize]> + BitLength + NumBits + SelectHinted>(
+            c: C,
+            l: &Value,
+        ) -> SelectSmall<$n, $w, C> {
+            match l["m"].as_str().unwrap_or("new") {
+                "new" => SelectSmall::<$n, $w, C>::new(c),
+                _ => SelectSmall::<$n, $w, C>::with_inv(c, pu(l, "a")),
+            }
+        }
+        fn $szs<C: SmallCounters<$n, $w> + AsRef<[usize]> + BitLength + NumBits + SelectZeroHinted>(
+            c: C,
+            l: &Value,
+        ) -> SelectZeroSmall<$n, $w, C> {
+            match l["m"].as_str().unwrap_or("new") {
+                "new" => SelectZeroSmall::<$n, $w, C>::new(c),
+                _ => SelectZeroSmall::<$n, $w, C>::with_inv(c, pu(l, "a")),
+            }
+        }
+    };
+}
+small_ctors!(ss0, szs0, 2, 9);
+small_ctors!(ss1, szs1, 1, 9);
+small_ctors!(ss2, szs2, 1, 10);
+small_ctors!(ss3, szs3, 1, 11);
+small_ctors!(ss4, szs4, 3, 13);
+
+fn rs0<B: AsRef<[usize]> + BitLength + RankHinted<64>>(b: B) -> RS0<B> { sux::rank_small![0; b] }
+fn rs1<B: AsRef<[usize]> + BitLength + RankHinted<64>>(b: B) -> RS1<B> { sux::rank_small![1; b] }
+fn rs2<B: AsRef<[usize]> + BitLength + RankHinted<64>>(b: B) -> RS2<B> { sux::rank_small![2; b] }
+fn rs3<B: AsRef<[usize]> + BitLength + RankHinted<64>>(b: B) -> RS3<B> { sux::rank_small![3; b] }
+fn rs4<B: AsRef<[usize]> + BitLength + RankHinted<64>>(b: B) -> RS4<B> { sux::rank_small![4; b] }
+fn anb<B: BitCount>(b: B) -> ANB<B> { b.into() }
+fn r9<B: AsRef<[usize]> + BitLength>(b: B) -> R9<B> { Rank9::new(b) }
+
+/// Builds the stack named by the layer names (bottom-up) over `bv`.
+fn build(key: &str, l: &[Value], bv: BV) -> Box<dyn Dyn> {
+    match key {
+        "" => own(bv),
+        "anb" => own(anb(bv)),
+        "r9" => own(r9(bv)),
+        "rs0" => own(rs0(bv)),
+        "rs1" => own(rs1(bv)),
+        "rs2" => own(rs2(bv)),
+        "rs3" => own(rs3(bv)),
+        "rs4" => own(rs4(bv)),
+        "anb/r9" => own(r9(anb(bv))),
+        "anb/rs2" => own(rs2(anb(bv))),
+        "r9/anb" => own(anb(r9(bv))),
+        "rs1/anb" => own(anb(rs1(bv))),
+        "sa" => own(sa(bv, &l[0])),
+        "sza" => own(sza(bv, &l[0])),
+        "anb/sa" => own(sa(anb(bv), &l[1])),
+        "anb/sza" => own(sza(anb(bv), &l[1])),
+        "anb/sa/sza" => own(sza(sa(anb(bv), &l[1]), &l[2])),
+        "anb/sza/sa" => own(sa(sza(anb(bv), &l[1]), &l[2])),
+        "r9/sa" => own(sa(r9(bv), &l[1])),
+        "r9/sza" => own(sza(r9(bv), &l[1])),
+        "r9/sa/sza" => own(sza(sa(r9(bv), &l[1]), &l[2])),
+        "r9/sza/sa" => own(sa(sza(r9(bv), &l[1]), &l[2])),
+        "r9/s9" => own(Select9::new(r9(bv))),
+        "r9/s9/sza" => own(sza(Select9::new(r9(bv)), &l[2])),
+        "r9/s9/szac12_3" => own(SZAC::<_, 12, 3>::new(Select9::new(r9(bv)))),
+        "anb/r9/s9" => own(Select9::new(r9(anb(bv)))),
+        "rs0/sa" => own(sa(rs0(bv), &l[1])),
+        "rs1/sa/sza" => own(sza(sa(rs1(bv), &l[1]), &l[2])),
+        "rs2/sza" => own(sza(rs2(bv), &l[1])),
+        "rs3/sa" => own(sa(rs3(bv), &l[1])),
+        "rs4/sza/sa" => own(sa(sza(rs4(bv), &l[1]), &l[2])),
+        // rank structures outside selection structures
+        "anb/sa/r9" => own(r9(sa(anb(bv), &l[1]))),
+        "anb/sa/sza/rs3" => own(rs3(sza(sa(anb(bv), &l[1]), &l[2]))),
+        "anb/sza/rs0" => own(rs0(sza(anb(bv), &l[1]))),
+        "anb/sa/r9/s9" => own(Select9::new(r9(sa(anb(bv), &l[1])))),
+        // direct construction and construction through map()
+        "anb/r9/sa" => own(sa(r9(anb(bv)), &l[2])),
+        "anb/sa/map:r9" => own(unsafe { sa(anb(bv), &l[1]).map(Rank9::new) }),
+        "anb/sza/map:rs1" => own(unsafe { sza(anb(bv), &l[1]).map(rs1) }),
+        "r9/map:anb+sa" => own(unsafe { r9(bv).map(|x| sa(anb(x), &l[1]["ins"][1])) }),
+        "anb/sac8_1/map:r9" => own(unsafe { SAC::<_, 8, 1>::new(anb(bv)).map(Rank9::new) }),
+        "anb/szac6_2/map:rs2" => own(unsafe { SZAC::<_, 6, 2>::new(anb(bv)).map(rs2) }),
+        "anb/r9/sac8_1" => own(SAC::<_, 8, 1>::new(r9(anb(bv)))),
+        "anb/rs2/szac6_2" => own(SZAC::<_, 6, 2>::new(rs2(anb(bv)))),
+        // const-parameter variants
+        "anb/sac12_3" => own(SAC::<_, 12, 3>::new(anb(bv))),
+        "anb/sac13_0" => own(SAC::<_, 13, 0>::new(anb(bv))),
+        "anb/sac10_4" => own(SAC::<_, 10, 4>::new(anb(bv))),
+        "anb/sac8_1" => own(SAC::<_, 8, 1>::new(anb(bv))),
+        "anb/sac6_2" => own(SAC::<_, 6, 2>::new(anb(bv))),
+        "anb/sac3_0" => own(SAC::<_, 3, 0>::new(anb(bv))),
+        "anb/sac1_1" => own(SAC::<_, 1, 1>::new(anb(bv))),
+        "anb/sac0_0" => own(SAC::<_, 0, 0>::new(anb(bv))),
+        "anb/szac12_3" => own(SZAC::<_, 12, 3>::new(anb(bv))),
+        "anb/szac13_0" => own(SZAC::<_, 13, 0>::new(anb(bv))),
+        "anb/szac8_1" => own(SZAC::<_, 8, 1>::new(anb(bv))),
+        "anb/szac6_2" => own(SZAC::<_, 6, 2>::new(anb(bv))),
+        "anb/szac3_0" => own(SZAC::<_, 3, 0>::new(anb(bv))),
+        "anb/szac0_0" => own(SZAC::<_, 0, 0>::new(anb(bv))),
+        "r9/sac12_3/szac12_3" => own(SZAC::<_, 12, 3>::new(SAC::<_, 12, 3>::new(r9(bv)))),
+        "r9/szac8_1/sac8_1" => own(SAC::<_, 8, 1>::new(SZAC::<_, 8, 1>::new(r9(bv)))),
+        // RankSmall-based selection
+        "rs0/ss0" => own(ss0(rs0(bv), &l[1])),
+        "rs1/ss1" => own(ss1(rs1(bv), &l[1])),
+        "rs2/ss2" => own(ss2(rs2(bv), &l[1])),
+        "rs3/ss3" => own(ss3(rs3(bv), &l[1])),
+        "rs4/ss4" => own(ss4(rs4(bv), &l[1])),
+        "rs0/szs0" => own(szs0(rs0(bv), &l[1])),
+        "rs1/szs1" => own(szs1(rs1(bv), &l[1])),
+        "rs2/szs2" => own(szs2(rs2(bv), &l[1])),
+        "rs3/szs3" => own(szs3(rs3(bv), &l[1])),
+        "rs4/szs4" => own(szs4(rs4(bv), &l[1])),
+        "rs0/ss0/szs0" => own(szs0(ss0(rs0(bv), &l[1]), &l[2])),
+        "rs1/ss1/szs1" => own(szs1(ss1(rs1(bv), &l[1]), &l[2])),
+        "rs2/ss2/szs2" => own(szs2(ss2(rs2(bv), &l[1]), &l[2])),
+        "rs3/ss3/szs3" => own(szs3(ss3(rs3(bv), &l[1]), &l[2])),
+        "rs4/ss4/szs4" => own(szs4(ss4(rs4(bv), &l[1]), &l[2])),
+        "rs0/szs0/ss0" => own(ss0(szs0(rs0(bv), &l[1]), &l[2])),
+        "rs1/szs1/ss1" => own(ss1(szs1(rs1(bv), &l[1]), &l[2])),
+        "rs2/szs2/ss2" => own(ss2(szs2(rs2(bv), &l[1]), &l[2])),
+        "rs3/szs3/ss3" => own(ss3(szs3(rs3(bv), &l[1]), &l[2])),
+        "rs4/szs4/ss4" => own(ss4(szs4(rs4(bv), &l[1]), &l[2])),
+        "anb/rs1/ss1" => own(ss1(rs1(anb(bv)), &l[2])),
+        "rs2/ss2/sza" => own(sza(ss2(rs2(bv), &l[1]), &l[2])),
+        _ => {
+            eprintln!("ranksel: stack {key} is not in the compiled menu");
+            std::process::exit(2);
+        }
+    }
+}
+
+// ---------------------------------------------------------------------------
+// the bit vector of an episode
+// ---------------------------------------------------------------------------
+fn garbage_bit(g: &str, seed: u64, pos: usize) -> bool {
+    match g {
+        "ones" => true,
+        "zeros" => false,
+        "alt" => pos % 2 == 0,
+        _ => {
+            // "rnd": a fixed mixing function of (seed, pos)
+            let mut x = (pos as u64).wrapping_add(seed).wrapping_mul(0x9E3779B97F4A7C15);
+            x ^= x >> 29;
+            x = x.wrapping_mul(0xBF58476D1CE4E5B9);
+            x ^= x >> 32;
+            x & 1 == 1
+        }
+    }
+}
+
+fn set_range(words: &mut [usize], s: usize, e: usize) {
+    // sets bits [s, e)
+    let mut p = s;
+    while p < e {
+        let w = p / 64;
+        let b = p % 64;
+        let n = (64 - b).min(e - p);
+        let mask = if n == 64 { usize::MAX } else { ((1usize << n) - 1) << b };
+        words[w] |= mask;
+        p += n;
+    }
+}
+
+fn make_vec(op: &Value) -> BV {
+    let len = get_usize(op, "len");
+    let s: Vec<usize> = op["s"].as_array().unwrap().iter().map(|x| x.as_u64().unwrap() as usize).collect();
+    let e: Vec<usize> = op["e"].as_array().unwrap().iter().map(|x| x.as_u64().unwrap() as usize).collect();
+    let tail = &op["tail"];
+    let t = tail["t"].as_str().unwrap_or("clean");
+    let k = tail["k"].as_u64().unwrap_or(0) as usize;
+    let g = tail["g"].as_str().unwrap_or("ones");
+    let seed = tail["seed"].as_u64().unwrap_or(0);
+    match t {
+        "clean" | "pop" | "trunc" => {
+            let longer = if t == "clean" { len } else { len + k };
+            let mut b = BitVec::new(longer);
+            {
+                let w: &mut [usize] = b.as_mut();
+                for (a, z) in s.iter().zip(e.iter()) {
+                    set_range(w, *a, *z);
+                }
+            }
+            for p in len..longer {
+                b.set(p, garbage_bit(g, seed, p));
+            }
+            if t == "pop" {
+                for _ in 0..k {
+                    b.pop();
+                }
+            } else if t == "trunc" {
+                b.resize(len, false);
+            }
+            b
+        }
+        "raw" | "extra" => {
+            let nw = len.div_ceil(64) + if t == "extra" { k } else { 0 };
+            let mut w = vec![0usize; nw];
+            for (a, z) in s.iter().zip(e.iter()) {
+                set_range(&mut w, *a, *z);
+            }
+            for p in len..nw * 64 {
+                if garbage_bit(g, seed, p) {
+                    w[p / 64] |= 1usize << (p % 64);
+                }
+            }
+            unsafe { BitVec::from_raw_parts(w, len) }
+        }
+        "push" => {
+            // grown bit by bit (capacity and contents decided by push)
+            let mut b = BitVec::with_capacity(k);
+            let mut r = 0;
+            for p in 0..len {
+                while r < s.len() && e[r] <= p {
+                    r += 1;
+                }
+                b.push(r < s.len() && s[r] <= p);
+            }
+            b
+        }
+        _ => {
+            eprintln!("ranksel: bad tail treatment {t}");
+            std::process::exit(2);
+        }
+    }
+}
+
+/// Word-level prefix counts of the base vector, used only to supply *valid
+/// hints* to the hinted operations (the trace specification re-checks that
+/// every hint is valid before it looks at the answer).
+struct Hints {
+    ones_before_word: Vec<usize>,
+}
+
+impl Hints {
+    fn new(b: &BV) -> Self {
+        let w: &[usize] = b.as_ref();
+        let mut v = Vec::with_capacity(w.len() + 1);
+        let mut c = 0usize;
+        v.push(0);
+        for x in w {
+            c += x.count_ones() as usize;
+            v.push(c);
+        }
+        Hints { ones_before_word: v }
+    }
+    /// position of the one (zero) of rank r, scanning the raw words
+    fn pos_of(&self, b: &BV, r: usize, zero: bool) -> usize {
+        let w: &[usize] = b.as_ref();
+        let cnt = |k: usize| if zero { k * 64 - self.ones_before_word[k] } else { self.ones_before_word[k] };
+        let (mut lo, mut hi) = (0usize, w.len());
+        // largest k with cnt(k) <= r
+        while lo < hi {
+            let mid = (lo + hi + 1) / 2;
+            if cnt(mid) <= r { lo = mid } else { hi = mid - 1 }
+        }
+        if lo >= w.len() {
+            return w.len() * 64;
+        }
+        let mut word = if zero { !w[lo] } else { w[lo] };
+        let mut rem = r - cnt(lo);
+        while rem > 0 && word != 0 {
+            word &= word - 1;
+            rem -= 1;
+        }
+        if word == 0 { w.len() * 64 } else { lo * 64 + word.trailing_zeros() as usize }
+    }
+}
+
+fn arg(v: &Value) -> usize {
+    match v.as_i64() {
+        Some(-1) => usize::MAX,
+        Some(-2) => 1usize << 63,
+        Some(-3) => 1usize << 32,
+        Some(x) if x >= 0 => x as usize,
+        _ => v.as_u64().unwrap_or_else(|| panic!("bad argument {v}")) as usize,
+    }
+}
+
+fn args(op: &Value, k: &str) -> Vec<usize> {
+    op[k].as_array().unwrap_or_else(|| panic!("script field {k} missing in {op}")).iter().map(arg).collect()
+}
+
+fn optpos(o: Option<usize>) -> Value {
+    match o {
+        None => json!(-1),
+        Some(x) => json!(x),
+    }
+}
+
+enum Q {
+    Na,
+    Ret(Value),
+    Panic(String),
+}
+
+/// Applies `f` to every argument; the first `None` means the operation does
+/// not exist on this type, a panic is reported with the index it happened at.
+fn batch<A: Copy>(xs: &[A], f: impl Fn(A) -> Option<Value>) -> Q {
+    let mut out = Vec::with_capacity(xs.len());
+    for (k, x) in xs.iter().enumerate() {
+        match guard(|| f(*x)) {
+            Ok(None) => return Q::Na,
+            Ok(Some(v)) => out.push(v),
+            Err(m) => return Q::Panic(format!("at {k}: {m}")),
+        }
+    }
+    Q::Ret(json!({ "res": out }))
+}
+
+fn scalar(r: Result<Option<usize>, String>) -> Q {
+    match r {
+        Ok(None) => Q::Na,
+        Ok(Some(v)) => Q::Ret(json!({ "res": v })),
+        Err(m) => Q::Panic(m),
+    }
+}
+
+pub fn run(ep: &Value, ctx: &mut Ctx) {
+    let hdr = json!({"op": "BEGIN", "fam": "ranksel", "src": ep.get("src").cloned().unwrap_or(json!("?"))});
+    ctx.begin(&hdr);
+    ctx.emit(&hdr, "ret", json!({}));
+    let mut base: Option<BV> = None;
+    let mut hints: Option<Hints> = None;
+    let mut cur: Option<Box<dyn Dyn>> = None;
+    for op in ep["ops"].as_array().unwrap() {
+        ctx.begin(op);
+        let name = op["op"].as_str().unwrap();
+        if name != "vec" && base.is_none() {
+            eprintln!("ranksel: {name} before vec");
+            std::process::exit(2);
+        }
+        if !matches!(name, "vec" | "build") && cur.is_none() {
+            // the constructor did not return: there is nothing to query
+            ctx.emit(op, "na", json!({"nobuild": true}));
+            continue;
+        }
+        let q: Q = match name {
+            "vec" => {
+                cur = None;
+                hints = None;
+                match guard(|| make_vec(op)) {
+                    Ok(b) => {
+                        let w: &[usize] = b.as_ref();
+                        let len = b.len();
+                        let mut dirty = 0usize;
+                        for (k, x) in w.iter().enumerate() {
+                            if (k + 1) * 64 <= len {
+                                continue;
+                            }
+                            let lo = if k * 64 >= len { 0 } else { len - k * 64 };
+                            dirty += (x >> lo).count_ones() as usize;
+                        }
+                        let r = json!({"vlen": len, "nw": w.len(), "dirty": dirty});
+                        base = Some(b);
+                        Q::Ret(r)
+                    }
+                    Err(m) => Q::Panic(m),
+                }
+            }
+            "build" => {
+                let layers: Vec<Value> = op["kind"].as_array().unwrap().clone();
+                let key: Vec<&str> = layers.iter().map(|l| l["l"].as_str().unwrap()).collect();
+                let key = key.join("/");
+                let bv = base.as_ref().unwrap().clone();
+                cur = None;
+                match guard(|| build(&key, &layers, bv)) {
+                    Ok(d) => {
+                        cur = Some(d);
+                        Q::Ret(json!({}))
+                    }
+                    Err(m) => Q::Panic(m),
+                }
+            }
+            _ => {
+                let d: &dyn Dyn = cur.as_ref().unwrap().as_ref();
+                let b = base.as_ref().unwrap();
+                match name {
+                    "len" => scalar(guard(|| d.len())),
+                    "num_ones" => scalar(guard(|| d.num_ones())),
+                    "num_zeros" => scalar(guard(|| d.num_zeros())),
+                    "count_ones" => scalar(guard(|| d.count_ones())),
+                    "count_zeros" => scalar(guard(|| d.count_zeros())),
+                    "rank" => batch(&args(op, "ps"), |p| d.rank(p).map(|x| json!(x))),
+                    "rank_zero" => batch(&args(op, "ps"), |p| d.rank_zero(p).map(|x| json!(x))),
+                    "rank_u" => batch(&args(op, "ps"), |p| d.rank_u(p).map(|x| json!(x))),
+                    "rank_zero_u" => batch(&args(op, "ps"), |p| d.rank_zero_u(p).map(|x| json!(x))),
+                    "index" => batch(&args(op, "ps"), |p| d.index(p).map(|x| json!(x))),
+                    "select" => batch(&args(op, "rs"), |r| d.select(r).map(optpos)),
+                    "select_zero" => batch(&args(op, "rs"), |r| d.select_zero(r).map(optpos)),
+                    "select_u" => batch(&args(op, "rs"), |r| d.select_u(r).map(|x| json!(x))),
+                    "select_zero_u" => batch(&args(op, "rs"), |r| d.select_zero_u(r).map(|x| json!(x))),
+                    "rank_hinted" => {
+                        // hs: hint positions in words; the hint rank is read off the raw words
+                        let ps = args(op, "ps");
+                        let hs = args(op, "hs");
+                        let h = hints.get_or_insert_with(|| Hints::new(b));
+                        let hr: Vec<usize> = hs.iter().map(|&k| h.ones_before_word[k]).collect();
+                        let idx: Vec<usize> = (0..ps.len()).collect();
+                        match batch(&idx, |k| d.rank_hinted(ps[k], hs[k], hr[k]).map(|x| json!(x))) {
+                            Q::Ret(mut v) => {
+                                v["hr"] = json!(hr);
+                                Q::Ret(v)
+                            }
+                            o => o,
+                        }
+                    }
+                    "select_hinted" | "select_zero_hinted" => {
+                        // hrs: ranks of the hinted ones (zeros); their positions are read off the raw words
+                        let zero = name == "select_zero_hinted";
+                        let rs = args(op, "rs");
+                        let hrs = args(op, "hrs");
+                        let h = hints.get_or_insert_with(|| Hints::new(b));
+                        let hp: Vec<usize> = hrs.iter().map(|&r| h.pos_of(b, r, zero)).collect();
+                        let idx: Vec<usize> = (0..rs.len()).collect();
+                        let q = if zero {
+                            batch(&idx, |k| d.select_zero_hinted(rs[k], hp[k], hrs[k]).map(|x| json!(x)))
+                        } else {
+                            batch(&idx, |k| d.select_hinted(rs[k], hp[k], hrs[k]).map(|x| json!(x)))
+                        };
+                        match q {
+                            Q::Ret(mut v) => {
+                                v["hp"] = json!(hp);
+                                Q::Ret(v)
+                            }
+                            o => o,
+                        }
+                    }
+                    "mem_size" => match guard(|| d.mem_size()) {
+                        Ok(None) => Q::Na,
+                        Ok(Some(t)) => {
+                            let inner = b.clone().mem_size(SizeFlags::default());
+                            Q::Ret(json!({"res": t, "inner": inner}))
+                        }
+                        Err(m) => Q::Panic(m),
+                    },
+                    "reload" => {
+                        let mode = op["mode"].as_str().unwrap();
+                        match guard(|| d.reload(mode)) {
+                            Ok(Ok(None)) => Q::Na,
+                            Ok(Ok(Some(n))) => {
+                                cur = Some(n);
+                                Q::Ret(json!({}))
+                            }
+                            Ok(Err(m)) => Q::Panic(format!("error: {m}")),
+                            Err(m) => Q::Panic(m),
+                        }
+                    }
+                    _ => {
+                        eprintln!("ranksel: unknown op {name}");
+                        std::process::exit(2);
+                    }
+                }
+            }
+        };
+        match q {
+            Q::Ret(f) => ctx.emit(op, "ret", f),
+            Q::Na => ctx.emit(op, "na", json!({})),
+            Q::Panic(m) => ctx.emit(op, "panic", json!({ "msg": m })),
+        }
+    }
 }
